@@ -85,13 +85,23 @@ fn main() {
         return;
     }
     if comp == "pack" {
-        // s4h pack lz4 <in> <out>
+        // s4h pack lz4 <in> <out> [flush-every-N-bytes]
         let data = std::fs::read(&args[3]).unwrap();
         match args[2].as_str() {
             "lz4" => {
                 let f = std::fs::File::create(&args[4]).unwrap();
                 let mut enc = lz4_flex::frame::FrameEncoder::new(f);
-                enc.write_all(&data).unwrap();
+                // optional 5th argument: flush after every N bytes, so that the frame holds NON-FINAL blocks shorter than the
+                // encoder's block size (a streaming writer that flushes; the decoder then returns short reads mid-stream)
+                match args.get(5).and_then(|a| a.parse::<usize>().ok()) {
+                    Some(n) if n > 0 => {
+                        for ch in data.chunks(n) {
+                            enc.write_all(ch).unwrap();
+                            enc.flush().unwrap();
+                        }
+                    }
+                    _ => enc.write_all(&data).unwrap(),
+                }
                 enc.finish().unwrap();
             }
             "xz" => {
